@@ -24,7 +24,7 @@
   semantics is `stuck` here, i.e. the theorem says nothing about executions that reach them: this
   is why the theorem is named `_partial`.
 -/
-import W2c2Verif.Lemmas.SimInstr
+import W2c2Verif.Lemmas.SimFunc
 
 namespace W2c2Verif.Props.C03
 open W2c2Verif Model Gen Spec Sim
@@ -43,5 +43,49 @@ theorem compile_sim_partial (ns : NumSem) (hns : NumOK ns) (ctx : Ctx)
 theorem compile_static (ctx : Ctx) (body : List EInstr) (st st' : St) (out : List MStmtC) (dead : Bool)
     (hc : compileSeq ctx st body = .ok (st', out, dead)) (hw : WF st) : Static st st' :=
   seq_static ctx body st st' out dead hc hw
+
+/-- Whole functions.  `runFuncSrc`: the specification's invocation — parameters hold the passed
+    arguments, declared locals start at zero, the body runs under the function label; falling off
+    the end, a branch to the function label from any depth, and `return` all return the top of the
+    stack.  `runFuncTgt`: the emitted C function — the same initial locals (the translator's
+    `= 0` declarations are rendered by `Model.Render` and tied by emit-tokens), the body, `L0:;`
+    and `return s<t>0;`, which exists only if some slot variable was declared.
+    Whenever the WebAssembly invocation returns (a value or nothing) or traps, within ANY fuel,
+    the C function returns the same value / takes the same trap; in particular the `return`
+    statement exists whenever a value is returned. -/
+theorem func_sim_partial (ns : NumSem) (hns : NumOK ns) (ctx : Ctx) (params locals : List VT) (result : Option VT)
+    (body : List EInstr) (cf : Model.CFunc) (args : List Val) (fuel : Nat)
+    (hc : compileFunc ctx params locals result body = .ok cf) (hargs : args.map vtOf = params) :
+    match runFuncSrc ns fuel locals result body args with
+    | .value v => runFuncTgt ns fuel cf args = .value v
+    | .trap t => runFuncTgt ns fuel cf args = .trap t
+    | _ => True :=
+  func_sim ns hns ctx params locals result body cf args fuel hc hargs
+
+/-! ### the hypotheses are satisfiable, the conclusion is not trivial -/
+
+/-- a numeric semantics satisfying `NumOK` (every numeric instruction traps: the weakest instance;
+    the instance built from `Spec.numOp` is the subject of C01/C02) -/
+def trapNS : NumSem where
+  arity := fun opcode => match lookupAssoc Gen.emitTable opcode with
+    | some k => (numSlots opcode k .i32 0 .i32 0).2.length
+    | none => 0
+  sem := fun _ _ => .trap .unreachable
+
+theorem trapNS_ok : NumOK trapNS := by
+  refine ⟨fun opcode k h => by simp [trapNS, h], fun opcode k args v h hs => by simp [trapNS] at hs⟩
+
+/-- `(func (param i32) (result i32) (local i32)
+       (block (result i32) i32.const 5 (block local.get 0 i32.const 7 br 2) drop i32.const 9) local.set 1 local.get 1)`
+    — a value-carrying branch out of two levels to the function label, with two operands below the carried value -/
+def demoBody : List EInstr :=
+  [.block (some .i32) [.const .i32 5, .block none [.localGet 0, .const .i32 7, .br 2], .drop, .const .i32 9], .localSet 1, .localGet 1]
+
+example : (compileFunc {} [.i32] [.i32] (some .i32) demoBody).toOption.isSome = true := by decide
+example : runFuncSrc trapNS 20 [.i32] (some .i32) demoBody [.i32 3] = .value (some (.i32 7)) := by rfl
+/-- ... hence, by the theorem, the emitted C returns 7 as well -/
+example (cf : Model.CFunc) (hc : compileFunc {} [.i32] [.i32] (some .i32) demoBody = .ok cf) :
+    runFuncTgt trapNS 20 cf [.i32 3] = .value (some (.i32 7)) :=
+  func_sim_partial trapNS trapNS_ok {} [.i32] [.i32] (some .i32) demoBody cf [.i32 3] 20 hc rfl
 
 end W2c2Verif.Props.C03
